@@ -25,6 +25,16 @@
 (*                       Return      the call returns                      *)
 (*  the body (caller's)  BodyBegin / BodyEnd: takes arbitrary time, reacts *)
 (*                       to cancellation arbitrarily late                  *)
+(*  context.WithTimeout  Timeout     environment: the deadline of the ctx  *)
+(*                                   given to the body passes (ctx.Done()  *)
+(*                                   becomes ready; the body notices       *)
+(*                                   arbitrarily late). The code's select  *)
+(*                                   has NO <-ctx.Done() arm, so the       *)
+(*                                   invocation still goes on only after   *)
+(*                                   <-done (or a notify)                  *)
+(*                       SelCtxDone  exists only with AwaitBodyOnTimeout = *)
+(*                                   FALSE: a select arm <-ctx.Done() that *)
+(*                                   returns without waiting for the body  *)
 (*                                                                         *)
 (* The notify channel is represented by `epoch` (number of Do so far): the *)
 (* channel read at Decide is closed iff epoch > seen[i].  Prioritized      *)
@@ -32,9 +42,10 @@
 (* here: active = Do without Done, dg = the delayed-decrement goroutines   *)
 (* by stage.                                                               *)
 (*                                                                         *)
-(* Deliberate deviations: context.WithTimeout's timeout is not modelled    *)
-(* (drivers use 24h); semaphore.Acquire is FIFO in the code, any waiter    *)
-(* here; goroutine creation of the body is the state "spawned".            *)
+(* Deliberate deviations: semaphore.Acquire is FIFO in the code, any       *)
+(* waiter here; goroutine creation of the body is the state "spawned"; the *)
+(* deadline of a body whose ctx is already cancelled (cancel() after a     *)
+(* notify) is not a step (nothing observable changes).                     *)
 (***************************************************************************)
 EXTENDS Integers, Sequences, FiniteSets, TLC
 
@@ -47,6 +58,8 @@ CONSTANTS
     DecrAfterSilence,  \* TRUE = the counter is decremented after the silence period (as in the code)
     UseSem,            \* TRUE = bodies are started under the semaphore (as in the code)
     NotifyArm,         \* TRUE = select has the <-ch arm (as in the code)
+    AwaitBodyOnTimeout,\* TRUE = no <-ctx.Done() arm: after the deadline the invocation still waits for the body (as in the code)
+    Timeouts,          \* TRUE = the deadline of a body's ctx may pass while it runs
     BroadcastAll       \* TRUE = cond.Broadcast (as in the code); FALSE = Signal (wakes one)
 
 VARIABLES
@@ -167,6 +180,24 @@ SelNotify(i) ==
     /\ UNCHANGED <<prio, epoch, sem, active, ndo, dg, seen>>
     /\ last' = [act |-> "SelNotify", i |-> i]
 
+\* the deadline of the ctx of the current body passes (the ctx is derived per Decide, so only the current body)
+Timeout(i) ==
+    /\ Timeouts
+    /\ pc[i] = "select"
+    /\ ~Cur(i).cx /\ Cur(i).st # "done"
+    /\ bodies' = [bodies EXCEPT ![i][Len(bodies[i])].cx = TRUE]
+    /\ UNCHANGED <<prio, epoch, sem, active, ndo, dg, pc, seen>>
+    /\ last' = [act |-> "Timeout", i |-> i]
+
+\* NOT in the code: a select arm <-ctx.Done() falling through to `return true`
+SelCtxDone(i) ==
+    /\ ~AwaitBodyOnTimeout
+    /\ pc[i] = "select"
+    /\ Cur(i).cx
+    /\ Goto(i, "relfinish")
+    /\ UNCHANGED <<prio, epoch, sem, active, ndo, dg, seen, bodies>>
+    /\ last' = [act |-> "SelCtxDone", i |-> i]
+
 SelDone(i) ==
     /\ pc[i] = "select"
     /\ CurDone(i)
@@ -219,6 +250,8 @@ Next ==
     \/ \E i \in Invs : Decide(i)
     \/ \E i \in Invs : SelNotify(i)
     \/ \E i \in Invs : SelDone(i)
+    \/ \E i \in Invs : Timeout(i)
+    \/ \E i \in Invs : SelCtxDone(i)
     \/ \E i \in Invs : AwaitBody(i)
     \/ \E i \in Invs : ReleaseSem(i)
     \/ \E i \in Invs : Return(i)
@@ -232,7 +265,7 @@ Fair ==
     /\ WF_vars(Expire) /\ WF_vars(DecrAdd) /\ WF_vars(Broadcast)
     /\ \A i \in Invs :
         /\ WF_vars(LoadOuter(i)) /\ WF_vars(CondCheck(i)) /\ WF_vars(AcquireSem(i)) /\ WF_vars(Decide(i))
-        /\ WF_vars(SelNotify(i)) /\ WF_vars(SelDone(i)) /\ WF_vars(AwaitBody(i))
+        /\ WF_vars(SelNotify(i)) /\ WF_vars(SelDone(i)) /\ WF_vars(AwaitBody(i)) /\ WF_vars(SelCtxDone(i))
         /\ WF_vars(ReleaseSem(i)) /\ WF_vars(Return(i))
         /\ \A n \in Bn : WF_vars(BodyBegin(i, n)) /\ WF_vars(BodyEnd(i, n))
 LiveSpec == Spec /\ Fair
@@ -241,7 +274,7 @@ FairNoBodyEnd ==
     /\ WF_vars(Expire) /\ WF_vars(DecrAdd) /\ WF_vars(Broadcast)
     /\ \A i \in Invs :
         /\ WF_vars(LoadOuter(i)) /\ WF_vars(CondCheck(i)) /\ WF_vars(AcquireSem(i)) /\ WF_vars(Decide(i))
-        /\ WF_vars(SelNotify(i)) /\ WF_vars(SelDone(i)) /\ WF_vars(AwaitBody(i))
+        /\ WF_vars(SelNotify(i)) /\ WF_vars(SelDone(i)) /\ WF_vars(AwaitBody(i)) /\ WF_vars(SelCtxDone(i))
         /\ WF_vars(ReleaseSem(i)) /\ WF_vars(Return(i))
 CancelSpec == Spec /\ FairNoBodyEnd
 
@@ -261,7 +294,8 @@ NoneRunningAtReturn == \A i \in Invs : pc[i] = "returned" => Unfinished(i) = {}
 
 \* liveness (model only, under Fair)
 CancelOnPrioritized ==
-    \A i \in Invs : (pc[i] = "select" /\ epoch > seen[i]) ~> (Len(bodies[i]) > 0 /\ (Cur(i).cx \/ Cur(i).st = "done"))
+    \* the invocation leaves its select: by the notify arm (cancel()) or because the body is done
+    \A i \in Invs : (pc[i] = "select" /\ epoch > seen[i]) ~> (pc[i] # "select")
 EventuallyCompletes ==
     \A i \in Invs : (<>[](prio = 0)) => <>(pc[i] = "returned")
 
